@@ -54,10 +54,9 @@ def member(label, n, rnd, members=None, plain_graph=False, style="random", mix=T
     if rnd.random() < 0.6:
         # same state, generic circuit: a random Clifford detour U ... U^-1 (so that two-qubit gates also act on
         # tableaus that are not in graph form when the library reads the circuit)
-        from ..oracle.pauli import inverse_gates
         U = random_gates(n, rnd.choice([3, 6, 10]), rnd, "uniform")
         k = rnd.randrange(len(circ) + 1)
-        circ = circ[:k] + U + inverse_gates(U) + circ[k:]
+        circ = circ[:k] + U + inverse_with_other_gates(U) + circ[k:]
     gens = state_of(circ, n)
     if mix:
         gens = groups.random_presentation(gens, n, rnd)
@@ -111,6 +110,31 @@ def generator_replacements(gens, n, j):
                 cand = [h if k == j else gens[k] for k in range(len(gens))]
                 if rank(cand, n) == len(gens):
                     out.append(cand)
+    return out
+
+
+def inverse_with_other_gates(gates):
+    """U^-1 written with different gates than U (cz undone by h cx h, cx by h cz h, swap by three cx), so that a
+    defect in the handling of one gate type is not cancelled by the mirror image of the same gate."""
+    out = []
+    for nm, qs in reversed(gates):
+        if nm == "s":
+            out.append(("sdg", qs))
+        elif nm == "sdg":
+            out.append(("s", qs))
+        elif nm == "cz":
+            a, b = qs
+            out += [("h", (b,)), ("cx", (a, b)), ("h", (b,))]
+        elif nm == "cx":
+            a, b = qs
+            out += [("h", (b,)), ("cz", (a, b)), ("h", (b,))]
+        elif nm == "swap":
+            a, b = qs
+            out += [("cx", (a, b)), ("cx", (b, a)), ("cx", (a, b))]
+        elif nm in ("barrier", "measure"):
+            continue
+        else:
+            out.append((nm, qs))
     return out
 
 
